@@ -403,6 +403,7 @@ struct LocalSummary {
     deadline_hit: bool,
 }
 
+#[derive(Clone)]
 struct Exec {
     sc: Scenario,
     iso: bool,
@@ -1104,9 +1105,7 @@ pub fn run(args: &Args) -> Report {
             if e.machinery.is_some() {
                 unresolved.push(format!("{key}: {} ({})", execs[i].sc.short(), e.machinery.clone().unwrap_or_default()));
             } else if e.findings.iter().any(|f| &f.key == key) {
-                let again = rt.block_on(async { exec_noop().await });
-                let _ = again;
-                confirmed.insert(key.clone(), (i, clone_exec_summary(e)));
+                confirmed.insert(key.clone(), (i, e.clone()));
             } else {
                 refuted.push(json!({"key": key, "scenario": execs[i].sc.to_json(), "first_run": execs[i].observation(), "alone": e.observation()}));
             }
@@ -1204,27 +1203,4 @@ pub fn run(args: &Args) -> Report {
         rep.machinery_error = Some(format!("degenerate run: give-ups {n_max}, non-retryable exits {n_http}, clients left connected {n_run}, echoed local connections {echoes} -- each must be > 0"));
     }
     rep
-}
-
-async fn exec_noop() {}
-
-/// `Exec` holds no handles after `finish`, a field-wise copy is enough for the evidence.
-fn clone_exec_summary(e: &Exec) -> Exec {
-    Exec {
-        sc: e.sc.clone(),
-        iso: e.iso,
-        findings: e.findings.clone(),
-        attempts: e.attempts.clone(),
-        streams: e.streams.clone(),
-        client_end: e.client_end.clone(),
-        client_end_at_finish: e.client_end_at_finish.clone(),
-        locals: e.locals.clone(),
-        quiet: e.quiet.clone(),
-        mute_req_lo: e.mute_req_lo.clone(),
-        completed: e.completed,
-        stop: e.stop.clone(),
-        machinery: e.machinery.clone(),
-        listen_ms: e.listen_ms,
-        wall_ms: e.wall_ms,
-    }
 }
